@@ -491,7 +491,15 @@ func (r Registry[R, T]) findLocalFunctionToCallRecursively(
 	return
 }
 
-func findMethodByFunctionCallPathRecursively(root interface{}, functionCallPath string) (reflect.Value, error) {
+func findMethodByFunctionCallPathRecursively(root interface{}, functionCallPath string) (function reflect.Value, err error) {
+	// `reflect` panics for paths through nil embedded pointers, methods of nil interfaces or a nil root;
+	// a remote must not be able to crash us by asking for such a path
+	defer func() {
+		if e := recover(); e != nil {
+			function, err = reflect.Value{}, ErrCannotCallNonFunction
+		}
+	}()
+
 	functionCallPathParts := strings.Split(functionCallPath, ".")
 	if len(functionCallPathParts) == 1 && functionCallPathParts[0] == "" { // `strings.Split` always returns at least one element
 		return reflect.Value{}, ErrInvalidFunctionCallPath
@@ -514,7 +522,7 @@ func findMethodByFunctionCallPathRecursively(root interface{}, functionCallPath 
 		}
 	}
 
-	function := field.MethodByName(functionCallPathParts[len(functionCallPathParts)-1])
+	function = field.MethodByName(functionCallPathParts[len(functionCallPathParts)-1])
 	if function.Kind() != reflect.Func {
 		return reflect.Value{}, ErrCannotCallNonFunction
 	}
